@@ -452,28 +452,33 @@ def rule_nocollapse(repo: Repo, rid: str = "C08.nocollapse") -> RuleResult:
 
 
 def rule_valuetext(repo: Repo, rid: str) -> RuleResult:
+    from .. import strshape as S
     r = RuleResult(rid, "a fluent's value is written with Python's round-trip float text (no format spec, no rounding)",
                    "the same fluents with the same values after reading the text back")
     for spec in ("PDDLFunction.state_representation", "PDDLFunction.state_typed_representation"):
-        f = repo.func(spec)
+        f = L.fn(repo, spec)
         p = L.prov(repo, f)
         r.site(f.qn)
+        ev = S.Evaluator(repo, f)
         holes = []
-        for js in [n for n in ast.walk(f.node) if isinstance(n, ast.JoinedStr)]:
-            for v in js.values:
-                if isinstance(v, ast.FormattedValue):
-                    tr = p.trace(v.value)
-                    if any(x[0] == "self" and ("attr:stored_value" in x or "attr:value" in x or "call:value" in x) for x in tr):
-                        holes.append((v, tr))
+        for rt in [x for x in L.func_returns(f) if x.value is not None]:
+            sh = ev.string(rt.value)
+            for h in S.holes(sh):
+                inner = h.value if isinstance(h, ast.FormattedValue) else h
+                tr = _safe(p, inner)
+                if any(x[0] == "self" and ("attr:stored_value" in x or "attr:value" in x or "call:value" in x) for x in tr):
+                    holes.append((h, inner, tr))
         if not holes:
             r.fail(Finding(rid, f, "value-not-printed", f"{spec} does not print the fluent's value"))
             continue
         bad = []
-        for v, tr in holes:
-            lossy_steps = [s for x in tr for s in x if s.startswith(("arg0:round", "arg0:int", "arg0:format", "binop:", "call:__format__", "arg0:Decimal", "call:quantize"))]
+        for h, inner, tr in holes:
+            lossy_steps = [s_ for x in tr for s_ in x if s_.startswith(("arg0:round", "arg0:int", "arg0:format", "binop:", "call:__format__", "arg0:Decimal", "call:quantize",
+                                                                         "call:format", "kw:"))]
             direct = any(x in (("self", "attr:value"), ("self", "attr:stored_value")) for x in tr)
-            if v.format_spec is not None or v.conversion not in (-1, 114, 115) or lossy_steps or not direct:
-                bad.append(unparse(v.value, 40) + (" with format spec" if v.format_spec is not None else "") + (f" via {sorted(set(lossy_steps))}" if lossy_steps else ""))
+            spec_ = isinstance(h, ast.FormattedValue) and (h.format_spec is not None or h.conversion not in (-1, 114, 115))
+            if spec_ or lossy_steps or not direct:
+                bad.append(unparse(inner, 40) + (" with format spec" if spec_ else "") + (f" via {sorted(set(lossy_steps))}" if lossy_steps else ""))
         # a property used for the value must itself return the stored value unchanged
         vp = repo.func_opt("PDDLFunction.value")
         if vp is not None:
